@@ -293,6 +293,7 @@ func (br *Bridge) Push(packet []byte, fromID int) bool { //nolint:gocognit,cyclo
 				}
 				// fmt.Printf("stack0 reordered!\n") // nolint
 				br.queue0to1 = append(br.queue0to1, br.stack0...)
+				br.stack0 = nil
 			}
 		case br.filterCB0 != nil && !br.filterCB0(data):
 			// fmt.Printf("br: filtered out a packet of size %d (q0)\n", len(d)) // nolint
@@ -313,6 +314,7 @@ func (br *Bridge) Push(packet []byte, fromID int) bool { //nolint:gocognit,cyclo
 					br.err = err
 				}
 				br.queue1to0 = append(br.queue1to0, br.stack1...)
+				br.stack1 = nil
 			}
 		case br.filterCB1 != nil && !br.filterCB1(data):
 			// fmt.Printf("br: filtered out a packet of size %d (q1)\n", len(d)) // nolint
